@@ -88,6 +88,10 @@ def op_struct(c):
     s = cls(name=c['n'], contents=tb)
     r = twice(lambda: str(s))
     assert tb.lines == list(c['tb'][1]), 'contents modified'
+    # structs/classes created without contents own their (empty) contents
+    first = cls(name=c['n'])
+    first.contents.append('int only_in_the_first;')
+    assert 'only_in_the_first' not in str(cls(name=c['n'])), 'structs without contents share one contents object'
     return r
 
 
@@ -96,6 +100,13 @@ def op_namespace(c):
     ns = G.Namespace(NamespaceIds(list(c['ids'])), contents=tb)
     r = twice(lambda: str(ns))
     assert tb.lines == list(c['tb'][1]), 'contents modified'
+    # namespaces created without contents own their (empty) contents: filling one leaves the next one empty
+    first = G.Namespace(NamespaceIds(list(c['ids'])))
+    first.contents.append('struct OnlyInTheFirst {};')
+    second = G.Namespace(NamespaceIds(list(c['ids'])))
+    third = G.Namespace(NamespaceIds(list(c['ids'])), contents=None)
+    assert 'OnlyInTheFirst' not in str(second) and 'OnlyInTheFirst' not in str(third), 'namespaces without contents share one contents object'
+    assert 'OnlyInTheFirst' in str(first)
     return r
 
 
